@@ -251,8 +251,6 @@ package rhp
 //@   assigns nothing
 //@ extern (*rhp4.RPCFormContractRequest).Validate
 //@   assigns nothing
-//@ extern (types.Currency).Equals pure
-//@ extern (types.Currency).Sub pure
 //
 //@ func (*Server).handleRPCFormContract props C16
 //@   requires s != nil && s.contractor != nil && s.chain != nil && s.wallet != nil && s.settings != nil && stream != nil
